@@ -70,6 +70,18 @@ CLAIMED = {
             "non-overflow argued by hand; i64::MIN // -1 excluded by the property. Floating-point magnitude claims "
             "(|a % b| < |b|) rest on Rust's fmod and are not re-derived.",
             "DESIGN.md §4 C04"),
+    "C05": ("dominance of guards over loops and element accesses, exception-constructor table, sign/bound "
+            "classification of every i64 add/sub/mul in the kernels, token-use check in the slice parser, sibling "
+            "signature agreement",
+            "Decides necessary conditions exactly: zero-step tests err/diverge and dominate all loops and the range "
+            "construction; range tests dominate element accesses; failures go through the documented exception "
+            "constructors with the documented kind/text constants; each arithmetic step in the index/slice/range "
+            "kernels is overflow-safe by a sign/bound argument (the `i += step` sites are not, reproduced); the "
+            "slice parser handles the `::` token; str_slice and list_slice normalise bounds identically. "
+            "Element-wise equality with Python for all sequences is not decided (needs a loop invariant).",
+            "Trusted: rustc nightly MIR; release-profile wrap-around semantics; lengths <= isize::MAX; the "
+            "documented messages transcribed in rules/c05.py::DOCUMENTED.",
+            "DESIGN.md §4 C05"),
 }
 
 NOT_APPLICABLE = {
